@@ -6,7 +6,7 @@ SIDS = ["h/a/x/v1/m", "h/a/x/v1/b", "h/a/x/v1/g", "h/a/x/v1", "h/a/x", "h/a/y/v1
 
 def x_obligations(tier):
     o = []
-    T = 170 if tier == "quick" else 1200
+    T = 170 if tier == "quick" else 600
     for si in range(6):
         if tier == "quick" and si % 2:
             continue
